@@ -227,6 +227,7 @@ def search_display(binary, seed=0):
     rng = random.Random(seed)
     vals = [1.5, -2.0, 0.25, 3.0, -0.75, 4.0, 0.5, -1.25, 8.0]
     reqs = []
+    zero_variants = True
     for ty in ["Dual", "Dual2", "Dual3", "HyperDual", "HyperHyperDual", "Dual__Dual", "DualVec", "Dual2Vec", "HyperDualVec"]:
         for _ in range(6):
             parts = [rng.choice(vals) for _ in range(NPARTS[ty])]
@@ -245,6 +246,11 @@ def search_display(binary, seed=0):
                 exp = expected_display(ty, p2)
                 if exp is not None:
                     reqs.append((ty, p2, exp))
+                # the same value with every present derivative part explicitly zero (a present zero part is still printed)
+                p3 = [p2[0]] + [None if v is None else 0.0 for v in p2[1:]]
+                exp3 = expected_display(ty, p3)
+                if zero_variants and exp3 is not None:
+                    reqs.append((ty, p3, exp3))
     inp = "\n".join(fmt_req(ty, "display", [p2], []) for ty, p2, _ in reqs) + "\n"
     p = subprocess.run([binary], input=inp, capture_output=True, text=True, timeout=120)
     for (ty, p2, exp), ln in zip(reqs, p.stdout.splitlines()):
